@@ -113,6 +113,16 @@ Theorem C03_sized_farjmp : forall (E : encoder) m st dol s op r dt l r0 sv ov,
   sized E m st dol s (do_jcc s "JMP" [op]).
 Proof. exact sized_farjmp. Qed.
 Print Assumptions C03_sized_farjmp.
+(* every no-operand mnemonic of the (regenerated) table: one byte counted, one byte emitted *)
+Theorem C03_sized_noparam : forall (E : encoder) m st dol s op b,
+  handler_of op = Some "processNoParam"%string -> kind_known op = true -> lookup op Generated.Tables.noparam_table = Some b ->
+  - 2 ^ 31 <= loc s -> loc s + 1 < 2 ^ 31 ->
+  sized E m st dol s (do_mnemonic E s op []).
+Proof. exact sized_noparam. Qed.
+Print Assumptions C03_sized_noparam.
+Example C03_noparam_nonvacuous : handler_of "PUSHAD" = Some "processNoParam"%string /\ kind_known "PUSHAD" = true
+  /\ lookup "PUSHAD"%string Generated.Tables.noparam_table = Some 96.
+Proof. repeat split; vm_compute; reflexivity. Qed.
 Theorem C03_size_jmp32 : forall rel, zlen (gen_jmp M32 rel) = estimate_jump "JMP" M32.
 Proof. exact size_jmp32. Qed.
 Theorem C03_size_call32 : forall rel, zlen (gen_call M32 rel) = estimate_jump "CALL" M32.
